@@ -11,6 +11,7 @@ From Borno Require Import Eval.
 From Borno Require Import Cli.
 From Borno Require Import EvalMeta.
 From Borno Require Import EvalOrder.
+From Borno Require Import ScenarioExamples.
 
 (** a binary operator evaluates its left operand, then its right operand, then applies the operator *)
 Theorem C14_binary_left_to_right :
@@ -234,3 +235,9 @@ Theorem C14_truthy_spec :
          v = VNil \/ v = VBool false \/ (exists x : f64, v = VNum x /\ f_is_zero x = true) \/ v = VStr [].
 Proof. exact (@truthy_spec). Qed.
 Print Assumptions C14_truthy_spec.
+
+(** elements, index, operands left to right and short-circuit on a concrete program, evaluated inside the kernel *)
+Theorem C14_scenario_left_to_right :
+  transcript src_left_to_right = Some ([[97]; [98]; [105]; [99]; [52]; [108]; [114]; [55]], 0).
+Proof. exact (@scenario_left_to_right). Qed.
+Print Assumptions C14_scenario_left_to_right.
